@@ -536,3 +536,82 @@ def run_node(p2p, peer_messages, schedule=(), order=None):
         bodies.append(lambda p=p: node.recv_loop(p))
     sched.run(bodies)
     return Execution(node, sched, socks, queue)
+
+
+# --------------------------------------------------------------------------- schedule enumeration + self-check
+
+
+def next_schedule(choices, counts, depth=0):
+    """Successor of a finished execution in the depth-first enumeration of the schedule tree: the longest proper prefix
+    of its canonical choice sequence that still has an untried sibling at a position >= depth, with that sibling
+    appended (every later choice then defaults to 0). None when the subtree below choices[:depth] is exhausted."""
+    i = len(counts) - 1
+    while i >= depth and choices[i] + 1 >= counts[i]:
+        i -= 1
+    if i < depth:
+        return None
+    return list(choices[:i]) + [choices[i] + 1]
+
+
+def selfcheck():
+    """The scheduler on a toy program (no bits involved): determinism, complete enumeration, a known lost update."""
+    from math import comb
+
+    def program(schedule, steps=(2, 3)):
+        sched = Scheduler(len(steps), schedule)
+        q = ParkDeque(sched)
+        cell = [0]
+
+        def body(i, k):
+            def run():
+                for j in range(k):
+                    q.append((i, j))
+                # unprotected read-modify-write with a scheduling point in between
+                seen = cell[0]
+                q.append((i, "w"))
+                cell[0] = seen + 1
+
+            return run
+
+        sched.run([body(i, k) for i, k in enumerate(steps)])
+        assert not any(sched.errors) and all(sched.done), sched.errors
+        return sched, q.snapshot(), cell[0]
+
+    seen = {}
+    schedule = []
+    while schedule is not None:
+        sc, content, total = program(schedule)
+        key = tuple(sc.choices)
+        assert key not in seen, "schedule enumerated twice"
+        sc2, content2, total2 = program(list(key))
+        assert (sc2.trace, content2, total2) == (sc.trace, content, total), "execution is not a function of the schedule"
+        assert [x for x in content if x[0] == 0] == [(0, 0), (0, 1), (0, "w")], "per-thread order broken"
+        seen[key] = total
+        schedule = next_schedule(sc.choices, sc.counts)
+    assert len(seen) == comb(7, 3), f"{len(seen)} schedules, expected C(7,3)"
+    assert set(seen.values()) == {1, 2}, "the lost update must occur in some schedules and not in others"
+    # a serial order never loses the update
+    sc = Scheduler(2, (), order=[1, 0])
+    q = ParkDeque(sc)
+    sc.run([lambda: q.append(0), lambda: (q.append(1), q.append(2))])
+    assert q.snapshot() == [1, 2, 0] and [t for t, _, _ in sc.trace] == [1, 1, 0]
+    # two threads taking two locks in opposite order: reported as a deadlock of the program, not of the harness
+    sc = Scheduler(2, [0, 1, 0, 1])
+    a, b = ParkLock(sc), ParkLock(sc)
+
+    def ab():
+        with a:
+            with b:
+                pass
+
+    def ba():
+        with b:
+            with a:
+                pass
+
+    sc.run([ab, ba])
+    assert sc.deadlocked and not sc.timed_out
+    sc = Scheduler(2, [0, 0, 0, 0])
+    a, b = ParkLock(sc), ParkLock(sc)
+    sc.run([ab, ba])
+    assert not sc.deadlocked and all(sc.done)
